@@ -531,6 +531,20 @@ def _call_ext(it, name, args, kwargs, node):
         r_ = VIter(out)
         r_.one_shot = True  # a chain object is an iterator: walking it (a loop, a membership test) uses it up
         return r_
+    if n == "itertools.accumulate" and len(args) == 1 and isinstance(args[0], VList) and args[0].obj.items is None and not kwargs:
+        # running totals of [min(n, L - s) for s in range(0, L, n)]: the end positions min(s + n, L) of the pieces
+        el, rng = args[0].obj.elem, getattr(args[0].obj, "comp_iter", None)
+        et = num_term(el) if el is not None else None
+        if et is not None and isinstance(rng, tuple) and rng and rng[0] == "range" and rng[1] == T.ZERO:
+            a_ = et.single_atom()
+            isy = [s_ for s_ in et.syms() if s_.startswith("i@")]
+            if isinstance(a_, T.App) and a_.op == "min" and len(a_.args) == 2 and len(isy) == 1 and set(map(repr, a_.args)) == {repr(rng[3]), repr(rng[2] - T.sym(isy[0]))}:
+                lv = it.new_list(None)
+                lv.obj.elem = VNum("int", T.app("min", *sorted([T.sym(isy[0]) + rng[3], rng[2]], key=repr)), nonneg=True)
+                lv.obj.comp_node = node
+                lv.obj.comp_iter = rng
+                lv.obj.piece_ends = (rng[3], rng[2])
+                return lv
     if n == "itertools.repeat" and len(args) == 1:
         u = VUnknown("repeat", "iter")
         u.endless = True
@@ -1105,6 +1119,17 @@ def call_numpy(it, f, args, kwargs, node):
                 return VNum("npfloat", T.const(math.ceil(c) if f == "ceil" else math.floor(c)), pos=c > 0)
             return VNum("npfloat", T.app(f, t), pos=isinstance(x, VNum) and x.pos and f == "ceil")
         return VNum("npfloat", fn(t), pos=(f in ("sqrt", "exp") and (isinstance(x, VNum) and x.pos or (isinstance(x, VConst) and x.value > 0))) or f == "exp")
+    if f == "split" and len(args) == 2 and isinstance(args[0], VTens) and isinstance(args[1], VList) and getattr(args[1].obj, "piece_ends", None) is not None \
+            and getattr(args[1].obj, "drop_last", False) and (kwargs.get("axis") is None or const_of(kwargs.get("axis")) == (True, 0)):
+        # np.split(x, cuts) with cuts the end positions of consecutive pieces of n rows (all but the last): the pieces of split(n)
+        from .ops_tensor import split_list
+        from .ops import val_of_dim
+
+        n_t, l_t = args[1].obj.piece_ends
+        if args[0].shape and args[0].shape[0] is not UNK and num_term(val_of_dim(args[0].shape[0])) == l_t:
+            r = split_list(it, args[0], VNum("int", n_t, pos=True), None, node)
+            if r is not None:
+                return r
     if f in ("array", "asarray"):
         x = args[0]
         return literal_tensor(it, x, node, kind="ndarray")
@@ -1402,7 +1427,7 @@ def call_builtin(it, f, args, kwargs, node):
         l.obj.source = args[0]
         if isinstance(args[0], VList):
             l.obj.elem = args[0].obj.elem
-            for a_ in ("comp_iter", "comp_node", "filtered_by_key"):
+            for a_ in ("comp_iter", "comp_node", "filtered_by_key", "piece_ends", "drop_last"):
                 if hasattr(args[0].obj, a_):
                     setattr(l.obj, a_, getattr(args[0].obj, a_))
         from .values import VRange as _VRange
@@ -1674,6 +1699,16 @@ def call_builtin(it, f, args, kwargs, node):
         return VNum("int", T.sym("%s@%s" % (f, it.site(node))))
     if f == "next":
         return VUnknown("next", "unknown")
+    if f == "map" and len(args) >= 2 and not kwargs:
+        # map over iterables whose items are known: the results in order, as a one-shot iterator (the calls are made when the map
+        # object is consumed; nothing observable happens in between in the code this models)
+        cols = [it.concrete_items(a) for a in args[1:]]
+        if all(c is not None for c in cols) and all(len(c) <= 16 for c in cols):
+            out = [it.call_value(args[0], list(row), {}, node) for row in zip(*cols)]
+            r_ = VIter(out)
+            r_.one_shot = True
+            return r_
+        return VUnknown(f, "iter")
     if f == "map" or f == "filter":
         return VUnknown(f, "iter")
     if f == "issubclass":
